@@ -171,19 +171,19 @@ pub fn record(output: &str) {
     quiet_panics();
     let mut out = Out::create(output);
     let mut r = rng(1212);
-    let n_cases = if thorough() { 120 } else { 24 };
+    let n_cases = if thorough() { 130 } else { 26 };
     let mut case_no = 0usize;
     let reps = if thorough() { 3 } else { 1 };
     for k in 0..n_cases {
-        let obstacle_class = ["free", "blocking", "grazing", "at-stroke-pose", "wrist-flip", "branch-blocking", "repeated-poses", "fragile", "turning", "no-steps", "start-collides", "landing-unreachable"][k % 12];
+        let obstacle_class = ["free", "blocking", "grazing", "at-stroke-pose", "wrist-flip", "branch-blocking", "repeated-poses", "fragile", "turning", "no-steps", "start-collides", "landing-unreachable", "turn-in-place"][k % 13];
         let y0 = r.gen_range(-0.25..-0.1);
         let y1 = r.gen_range(0.1..0.25);
         let x = r.gen_range(0.85..1.0);
         let z = r.gen_range(0.55..0.75);
         // the settings below vary with the occurrence number of the class (and a class-dependent shift), so that every
         // class meets every setting as the cases go on - a selector tied to k itself would alias with the class index
-        let nth = k / 12;
-        let v = nth + (k % 12) / 2;
+        let nth = k / 13;
+        let v = nth + (k % 13) / 2;
         let yaw = if v % 2 == 0 { 0.0 } else { r.gen_range(-0.5..0.5) };
         let obstacle: Option<WBox> = match obstacle_class {
             "blocking" => Some(WBox { c: [x, (y0 + y1) / 2.0, z + 0.03], h: [0.04, 0.03, 0.04] }),   // on the path of the tool body
@@ -218,6 +218,14 @@ pub fn record(output: &str) {
         if obstacle_class == "landing-unreachable" {
             // the landing pose is three metres up: no strategy, an error
             land = down_pose(x, y0, z + 3.0, yaw);
+        }
+        if obstacle_class == "turn-in-place" {
+            // the tool dwells at two of the stroke positions and turns there by 20 degrees (same position, another
+            // orientation), and the poses in between are 1 cm apart with 20 degrees of turn: rotation dominates
+            nsteps = 5;
+            let ys = [y0, y0, y0 + 0.01, y0 + 0.02, y0 + 0.02];
+            steps = (0..5).map(|i| down_pose(x, ys[i], z, yaw + 0.35 * i as f64)).collect();
+            park = down_pose(x, y0 + 0.02, z + 0.1, yaw + 1.4);
         }
         if obstacle_class == "turning" {
             // the tool turns by 9 degrees from pose to pose; every second pose is written with the opposite sign of the
@@ -254,10 +262,10 @@ pub fn record(output: &str) {
         if (nth + k) % 3 == 2 && j6_limit > 4.0 && obstacle_class != "start-collides" { start[5] = 3.3; }
         let table_json = json!(cell.table.iter().map(|t| json!([t.0, t.1, t.2])).collect::<Vec<_>>());
         let nenv = cell.kws.body.collision_environment.len();
-        let include = (nth + k % 12) % 2 == 0;
-        let max_cost = if obstacle_class == "at-stroke-pose" { 25.0f64.to_radians() } else { [6.0f64, 12.0, 3.0][(nth + k % 12) % 3].to_radians() };
+        let include = (nth + k % 13) % 2 == 0;
+        let max_cost = if obstacle_class == "at-stroke-pose" { 25.0f64.to_radians() } else { [6.0f64, 12.0, 3.0][(nth + k % 13) % 3].to_radians() };
         // transition coefficients: the defaults, or a configuration that weighs some joints much more
-        let coeffs: Joints = match (nth + k % 12 / 3) % 3 { 0 => DEFAULT_TRANSITION_COSTS, 1 => [3.0, 2.5, 2.5, 0.9, 0.9, 3.5], _ => [2.4, 2.2, 2.2, 1.8, 1.8, 1.6] };
+        let coeffs: Joints = match (nth + k % 13 / 3) % 3 { 0 => DEFAULT_TRANSITION_COSTS, 1 => [3.0, 2.5, 2.5, 0.9, 0.9, 3.5], _ => [2.4, 2.2, 2.2, 1.8, 1.8, 1.6] };
         let mut outcomes: Vec<bool> = Vec::new();
         let mut any_rrt = false;
         case_no += 1;
@@ -266,10 +274,10 @@ pub fn record(output: &str) {
             for rep in 0..reps {
                 let planner = Cartesian {
                     robot: &cell.kws,
-                    check_step_m: if obstacle_class == "wrist-flip" && nth % 2 == 0 { 1.0 } else if obstacle_class == "at-stroke-pose" { 0.06 } else { [0.02, 0.05][(nth + k % 12 / 4) % 2] },
+                    check_step_m: if obstacle_class == "wrist-flip" && nth % 2 == 0 { 1.0 } else if obstacle_class == "at-stroke-pose" { 0.06 } else { [0.02, 0.05][(nth + k % 13 / 4) % 2] },
                     // (fine or coarse densification; every second wrist-flip stroke is not densified at all, so that the
                     //  windows run from stroke pose to stroke pose and the bisection has to find the flip itself)
-                    check_step_rad: if obstacle_class == "wrist-flip" && nth % 2 == 0 { 3.2 } else { [3.0f64, 30.0][(nth + k % 12 / 2) % 2].to_radians() },
+                    check_step_rad: if obstacle_class == "wrist-flip" && nth % 2 == 0 { 3.2 } else { [3.0f64, 30.0][(nth + k % 13 / 2) % 2].to_radians() },
                     max_transition_cost: max_cost,
                     transition_coefficients: coeffs,
                     linear_recursion_depth: [3, 8][nth % 2],
